@@ -327,6 +327,22 @@ func runC04(c *Ctx) {
 		floor := v != nil && F+d == 1
 		zero := v != nil && e == d-1 && contOnZero
 		okRet := d >= 0
+		// the scan starts at the end of the buffer: the loop variable enters the loop as len(buf)-d and from nowhere else
+		// (a preceding coarser scan, e.g. eight bytes at a time, can pass the one-byte floor)
+		if v != nil {
+			for _, ed := range v.Edges {
+				if ed == ssa.Value(dec.(*ssa.BinOp)) {
+					continue
+				}
+				want := "len(arg0)"
+				if d > 0 {
+					want = fmt.Sprintf("(len(arg0) - %d)", d)
+				}
+				if ex(ed) != want {
+					floor = false
+				}
+			}
+		}
 		r.Check(floor && zero && okRet, "R4.3", pk+" removeEmptyBytes", c.Pos(fn.Pos()), "strips trailing 0x00 while more than one byte remains", fmt.Sprintf("removeEmptyBytes shape wrong (one-byte floor: %v, strips exactly while the last byte is 0: %v, returns a prefix of its argument: %v): payloads could be truncated to zero bytes or non-zero bytes stripped", floor, zero, okRet))
 	}
 	if fn := c.Fn("pkg/frame", "hasEmptyBytes"); fn != nil {
@@ -347,7 +363,8 @@ func runC04(c *Ctx) {
 
 	// R4.4
 	r.Rule("R4.4", "extension / version symmetry: Read and Write skip a field exactly when `!isV2 && isExtension`, before touching the buffer; Write's buffer has size() bytes = sizeExtended for v2 and sizeNormal for v1; "+
-		"each field is read/written at the struct field given by its own index", 3)
+		"each field is read/written at the struct field given by its own index; the byte cursor advances only by the count returned by readValue / writeValue for that cursor", 5)
+	ruleCursor(c, "R4.4")
 	for _, v := range []struct {
 		fn   *ssa.Function
 		call string
@@ -514,5 +531,88 @@ func ruleStrings(c *Ctx, rule string) {
 			}
 		}
 		r.Check(cp && adv, rule, "writeValue string", c.Pos(wv.Pos()), "copy into buf[:arrayLength], advance arrayLength", fmt.Sprintf("string encoding shape wrong (copy bounded by arrayLength: %v, advances arrayLength: %v)", cp, adv))
+	}
+}
+
+// ruleCursor (R4.4 / R3.8): cursor discipline of ReadWriter.Read / Write.
+func ruleCursor(c *Ctx, rule string) {
+	r := c.R
+	for _, v := range []struct{ name, call string }{{"ReadWriter.Read", "message.readValue"}, {"ReadWriter.Write", "message.writeValue"}} {
+		fn := c.Fn("pkg/message", v.name)
+		if fn == nil {
+			continue
+		}
+		r.Functions[fnQual(fn)] = true
+		// inside the field loop the byte cursor advances only by what the per-value codec reports for that very cursor
+		// (no bulk copies or side paths that bypass readValue / writeValue)
+		bufArg := map[string]int{"message.readValue": 1, "message.writeValue": 0}[v.call]
+		okCur, whyCur, nAdv := true, "", 0
+		for _, in := range allInstrs(fn) {
+			sl, isSl := in.(*ssa.Slice)
+			if !isSl || sl.Low == nil || !inLoop(sl.Block()) || typeStr(sl.X.Type()) != "[]byte" {
+				continue
+			}
+			nAdv++
+			lo := sl.Low
+			if cv, isCv := lo.(*ssa.Convert); isCv {
+				lo = cv.X
+			}
+			call, isCall := lo.(*ssa.Call)
+			if isCall && calleeName(&call.Call) == v.call && call.Call.Args[bufArg] == sl.X {
+				continue // slice cursor: cur = cur[n:], n the codec's count for cur
+			}
+			// index cursor: base[pos:] handed to the codec, pos accumulating nothing but the codec's counts
+			isCodecCount := func(x ssa.Value) bool {
+				if cv, ok := x.(*ssa.Convert); ok {
+					x = cv.X
+				}
+				cc, ok := x.(*ssa.Call)
+				return ok && calleeName(&cc.Call) == v.call
+			}
+			seenAcc := map[ssa.Value]bool{}
+			var isAccum func(x ssa.Value) bool
+			isAccum = func(x ssa.Value) bool {
+				if seenAcc[x] {
+					return true
+				}
+				seenAcc[x] = true
+				if k, isK := constInt(x); isK {
+					return k == 0
+				}
+				switch y := x.(type) {
+				case *ssa.Phi:
+					for _, e := range y.Edges {
+						if !isAccum(e) {
+							return false
+						}
+					}
+					return true
+				case *ssa.BinOp:
+					if y.Op == token.ADD {
+						return (isAccum(y.X) && isCodecCount(y.Y)) || (isAccum(y.Y) && isCodecCount(y.X))
+					}
+				}
+				return false
+			}
+			onlyCodec := sl.Referrers() != nil
+			if onlyCodec {
+				for _, rf := range *sl.Referrers() {
+					switch z := rf.(type) {
+					case *ssa.DebugRef:
+					case *ssa.Call:
+						if calleeName(&z.Call) != v.call || z.Call.Args[bufArg] != ssa.Value(sl) {
+							onlyCodec = false
+						}
+					default:
+						onlyCodec = false
+					}
+				}
+			}
+			if !(onlyCodec && isAccum(sl.Low)) {
+				okCur = false
+				whyCur = "the buffer cursor is advanced at " + c.Pos(sl.Pos()) + " by " + shortErr(sl.Low) + ", not by the count the per-value codec reports for this cursor: some field bytes bypass " + v.call
+			}
+		}
+		r.Check(okCur && nAdv > 0, rule, v.name+" cursor discipline", c.Pos(fn.Pos()), fmt.Sprintf("%d cursor advances, each by the codec's own count", nAdv), orStr(whyCur, "no cursor advance found in the field loop"))
 	}
 }
